@@ -1,3 +1,7 @@
+mod alpha;
+mod c04;
+mod c05;
+mod c06;
 mod c14;
 mod c15;
 mod c19;
@@ -6,12 +10,13 @@ mod cli;
 mod engine;
 mod lexgen;
 mod reflex;
+mod treegen;
 
 use engine::*;
 
 fn checks() -> Vec<Box<dyn Check>>
 {
-	vec![Box::new(c14::C14), Box::new(c15::C15), Box::new(c19::C19)]
+	vec![Box::new(c04::C04), Box::new(c05::C05), Box::new(c06::C06), Box::new(c14::C14), Box::new(c15::C15), Box::new(c19::C19)]
 }
 
 fn main()
